@@ -106,6 +106,8 @@ impl Xoshiro256StarStar {
     ///
     /// This function never panics.
     #[must_use]
+    #[cfg_attr(kani, kani::ensures(|r: &f64| *r >= 0.0 && *r < 1.0))]
+    #[cfg_attr(kani, kani::modifies(&self.state))]
     pub fn next_f64(&mut self) -> f64 {
         const MANTISSA_BITS: u64 = 1 << 52;
         const MANTISSA_MASK: u64 = MANTISSA_BITS - 1;
@@ -115,6 +117,13 @@ impl Xoshiro256StarStar {
         let exponent = 1023; // Exponent for 2^0 in IEEE 754
 
         f64::from_bits((exponent << 52) | mantissa) - 1.0
+    }
+}
+
+#[cfg(kani)]
+impl kani::Arbitrary for Xoshiro256StarStar {
+    fn any() -> Self {
+        Self { state: kani::any() }
     }
 }
 
